@@ -6,8 +6,9 @@ Reads the library's Rust sources as the production Linux build sees them (items 
 comments and string literals blanked) and lists every expression that can panic by itself:
 
   unwrap / expect / unwrap_err / expect_err calls, panic!/unreachable!/unimplemented!/todo!/assert*! macros,
-  index and slice expressions `e[...]`, integer division and remainder, and a few std methods that panic on
-  bad arguments (copy_from_slice, split_at, swap_remove, Vec::remove, ...).
+  index and slice expressions `e[...]`, integer division and remainder, additive arithmetic on time values
+  (Duration / Instant / SystemTime: panics on underflow and overflow in every build profile), and a few std methods
+  that panic on bad arguments (copy_from_slice, split_at, swap_remove, Vec::remove, ...).
 
 Output: lean/UpdaterModel/Gen/PanicSites.lean, a table `sites : List Site` (file, enclosing fn, kind, normalised
 expression text, occurrence index within the fn). Line numbers are deliberately NOT part of the identity: moving
@@ -251,6 +252,16 @@ def find_sites(path, rel):
     # integer division / remainder (a '/' or '%' operator)
     for m in re.finditer(r"(?<![/\*])\s(/|%)\s(?![/\*=])", code):
         sites.append((m.start() + 1, "div:" + m.group(1)))
+    # arithmetic on time values: `Duration - Duration`, `Instant - Duration`, `Instant + Duration`, `SystemTime ± Duration`
+    # panic on underflow / overflow in every build profile. Operand types are not known to a textual translator: an
+    # additive operator counts when its statement (or one of the two lines above) mentions a time type or constructor.
+    for m in re.finditer(r"(?<=[\w\)\]])\s([-+])\s(?=[\w\(])", code):
+        ls = code.rfind("\n", 0, m.start()) + 1
+        for _ in range(2):
+            ls = code.rfind("\n", 0, max(ls - 1, 0)) + 1
+        le = code.find("\n", m.start()); le = len(code) if le < 0 else le
+        if re.search(r"\b(Duration|Instant|SystemTime|UNIX_EPOCH|elapsed|from_secs|from_millis|unix_timestamp)\b", code[ls:le]):
+            sites.append((m.start() + 1, "time-arith:" + m.group(1)))
     res = []
     counts = {}
     for off, kind in sorted(sites):
